@@ -70,6 +70,42 @@ CHECKS = {
  "C41": ("pv-txb", "exploration", "stateful proptest against a map model; ed25519-dalek as signature oracle",
    "On transactions built from random staging sequences, random sequences of up to 12 sign / add_signature / remove_signature over four keys are executed; after every step the body span and id must be unchanged, the signature map must hold exactly the keys the operations leave, and the witness set read with an independent CBOR reader must contain exactly one witness per map key, each verified with ed25519-dalek against the id.",
    "Pool of four keys, Conway-built transactions only."),
+ "C05": ("pv-ledger", "exploration", "corpus + structural CBOR mutator (meaning-preserving re-encodings); independent span extraction with cborx and Blake2b reference",
+   "Every block/tx/header of the corpus (quick: test_data; thorough: + 1777 chunk blocks) and form mutations of them at 1-6 random nodes (def<->indef containers, non-minimal heads, chunked strings, set tags, reordered map entries, also inside tag-24 embedded CBOR) are decoded; a mutated artefact is kept only if pallas still decodes it (accept rate per family reported). cborx locates the exact byte span of each header, transaction body, datum and script in the (mutated) bytes; the expected id is the harness' Blake2b of that span with the era rule and must equal MultiEraBlock/Header/Tx::hash and OriginalHash on datums and scripts.",
+   "Block layout knowledge is transcribed from the CDDL in src/layout.rs."),
+ "C06": ("pv-prim", "exploration", "corpus isomorphism over all 1873 artefacts + choice-sequence generated values of 62 era type families; round-trip and field-placement oracles via cborx",
+   "(a) every artefact (96 test_data files + 1777 chunk blocks, both tiers) must re-encode byte-identically through the era codecs, every KeepRaw part reached must survive decode(to_vec(inner)), headers taken out of blocks must be isomorphic on their own; differences are located with a cborx tree diff and keyed by root cause. (b) values of 62 era type families are built from seed-free choice sequences (only representable values) and must satisfy decode(to_vec(v)) == v with full consumption; a field-placement oracle compares fee, ttl, hashes and counts against an independent cborx reading of the same bytes.",
+   "conway8.block needs the `relaxed` feature and is counted as skipped. Blocks whose transaction sequences are indefinite-length arrays are a known finding (repair changes public field types and the serde form)."),
+ "C07": ("pv-prim", "exploration", "proptest: structural round-trip incl. def/indef flags, chunking oracle through cborx, order laws on derived triples",
+   "Generated PlutusData to depth 4 (all constructor-tag ranges, integers over the whole CBOR range, big integers with and without leading zeros, byte strings around the 64-byte chunk boundary, definite and indefinite containers): decode(to_vec(v)) must be structurally identical including def/indef flags; the encoding's byte strings must be chunked exactly as the Haskell implementation does (checked with cborx) and any cborx-produced chunking must decode to the concatenation; reflexivity, antisymmetry, transitivity, == <=> Equal, partial_cmp == Some(cmp) on triples derived by small edits so comparisons descend; flipping def/indef flags must not change equality or order.",
+   "No particular ranking between kinds is asserted (the statement only requires a total order)."),
+ "C08": ("pv-prim", "exploration", "proptest: cborx-built witness sets x every subset of language views; independent encoder of the language views + Blake2b reference; five real transactions",
+   "Witness-set bytes are written by cborx (redeemers as list or map or absent; datums absent / definite / indefinite / with or without tag 258, each datum arbitrary non-canonical PlutusData bytes) and decoded as conway::WitnessSet; language views over every subset of {V1,V2,V3} with random-length cost vectors incl. negative and extreme coefficients. Expected hash = harness Blake2b-256 of redeemer bytes (or a0) || datum bytes as they appeared || own canonical encoding of the language views; build_for must be None iff there are neither redeemers nor datums. The five real transactions of the repo's vectors are included with the hash read from body key 11.",
+   "Redeemers are generated in the library's canonical form (the statement only promises 'as they appeared' for datums)."),
+ "C20": ("pv-net", "exploration", "randomised schedules of concurrent sender/receiver tasks over two connected Plexers (in-memory Unix socket pair); stamped-payload delivery oracle",
+   "About 1000 schedules per quick run of 2-6 agents (both roles, both directions, up to 6 protocol ids) on two connected Plexers over UnixStream::pair under a multi-threaded tokio runtime; generated chunk scripts (sizes 0..65535 with edges emphasised) and generated yield counts. Every receiver must get exactly the chunks its opposite-role peer on the same protocol enqueued, byte-identical and in order, nothing else; a lost chunk is detected by a later-enqueued sentinel rather than a timeout.",
+   "The tokio scheduler is not owned by the harness: interleavings are sampled, not enumerated. A stalled schedule is inconclusive (exit 2), never a violation."),
+ "C23": ("pv-net", "exploration", "exhaustive (agent, state, action) triples + random walks against hand-transcribed specification tables, agents driven over connected multiplexers",
+   "21 client/server agents of the original stack are driven over a Plexer pair with a raw channel on the other side that injects any encoded message and reads what the agent sends. For every reachable (state, message, role) triple: send_message is Ok exactly for messages the specification lets this role send, recv_message is Ok(m) exactly for messages the peer may send and otherwise Err with state() unchanged, and after each high-level method state() is the specification's next state. 2396 exhaustive triples plus 60 k random walks per quick run.",
+   "Trusts src/spec.rs (transcribed from the Ouroboros network specification). Payload constraints (cookie echo, non-empty blocking replies) and simultaneous-open handshake are not judged; tx-monitor busy states are merged at the low-level receive as pallas has one Busy state."),
+ "C25": ("pv-net", "exploration", "proptest over pairs of version tables for both stacks' responders; harness-side CBOR codec for Propose/replies",
+   "Random pairs of version tables (0..16 versions from a 20-number alphabet, overlapping / disjoint / nested, magics from a 3-value alphabet) are negotiated by net1 handshake::Server (N2N and N2C data; the Propose is encoded and the reply parsed by the harness with cborx) and by net2 ResponderBehavior driven by events. Oracle: an Accept names a version in both tables with no higher common version and agreeing magic; disjoint key sets yield Refuse(VersionMismatch(responder's versions)).",
+   "Nothing is asserted about refusals when a common version exists (the statement constrains accepts only)."),
+ "C26": ("pv-net", "exploration", "stateful proptest against an independent list model (op sequences <= 200 over a 6-point alphabet)",
+   "Sequences of roll_forward / roll_back / pop_with_depth over a small point alphabet (forcing duplicates and misses) are applied to RollbackBuffer and to a Vec model; after every op the full content, size, latest, oldest and every position are compared; roll-back to an unknown point must empty the buffer and report out-of-scope; with duplicate points any occurrence is accepted and the model continues from the buffer's content.",
+   "Sampled sequences."),
+ "C30": ("pv-ledger", "exploration", "corpus + cborx-assembled synthetic blocks (random invalid lists, sparse aux maps); independent layout oracle",
+   "For every corpus block and for synthetic blocks assembled by cborx from real parts of one era (0..8 transactions, random invalid-transaction lists incl. duplicates, sparse auxiliary-data maps in random key order): era() must be the wrapper's tag, tx_count the number of bodies, and the i-th traversed transaction must have the hash of body i, the raw witness set i, the aux entry keyed i (or none) and is_valid() == (i not in the invalid list); Byron payload entries in order.",
+   "No test_data block contains an invalid transaction; that half is covered by the synthetic blocks."),
+ "C31": ("pv-ledger", "exploration", "corpus transactions under both validity flags + generated variants; cborx view of the body as oracle",
+   "Every corpus transaction under both values of the validity flag (flipped by cborx) plus variants with duplicated inputs and added/removed collateral return: valid => consumes() = inputs without repeats and produces() = outputs at 0..n-1; invalid => consumes() = collateral and produces() = [(n, collateral_return)] or empty; produces_at(i) agrees with produces() for i in 0..n+2; inputs_sorted_set() strictly increasing in (tx id, index) and set-equal to the inputs.",
+   "Order of consumes()/produces() is not asserted."),
+ "C32": ("pv-ledger", "exploration", "dense enumeration around era and epoch boundaries + 8 M random slots for the four well-known networks",
+   "For mainnet, testnet, preview and preprod: slots 0..5000, every era boundary +-2000, the first 200 epoch boundaries of each era +-2 and millions of random slots in [0, 2^40): slot-in-epoch must be below the era's epoch size in slots, relative->absolute must give the slot back, the epoch number must match the independent formula, and slot_to_wallclock must advance by exactly the era's slot length per slot including across the hard fork.",
+   "Two known findings are pinned by the repo's own tests and therefore recorded, not repaired: Byron-era slot-in-epoch (remainder taken in seconds) and the testnet Byron/Shelley clock offset."),
+ "C44": ("pv-ledger", "exploration", "corpus through both schema mappers + generated datums; independent cborx/Blake2b reading and exact integer comparison in num-bigint",
+   "Every corpus block/tx is mapped by v1alpha::Mapper and v1beta::Mapper (no-op ledger context): hash = Blake2b of the body span; inputs, output address bytes/coin/assets, fee, validity and datum hashes must equal the values read through cborx; generated datums (integers over the whole CBOR range, bignums) alone and attached to outputs under both validity flags: every Plutus integer's mathematical value must equal the source's and CBOR integers must be Int exactly when they fit i64.",
+   "Inputs compared as sets; a small value arriving as a tag-2/3 bignum may stay big-integer bytes (value compared)."),
 }
 
 NOT_YET = {}
